@@ -4,7 +4,13 @@ set -e
 N=$1
 cd /verif
 echo "== verif: merging w$N"
-git merge --no-edit w$N || { echo "MERGE CONFLICT in /verif"; exit 1; }
+if ! git merge --no-edit w$N; then
+  # evidence files are rewritten by every run: take the branch's copy; anything else is a real conflict
+  for f in $(git diff --name-only --diff-filter=U); do
+    case "$f" in evidence/*) git checkout --theirs "$f" && git add "$f";; *) echo "MERGE CONFLICT in /verif: $f"; exit 1;; esac
+  done
+  git commit -qm "merge w$N (evidence conflicts resolved to the branch's copy)"
+fi
 echo "== repo: cherry-picking w$N commits"
 cd /repo
 for c in $(git log --reverse --format=%H main..w$N); do
